@@ -155,3 +155,49 @@ func zzC03_pretty_helpers() {
 	vAssert(len(a) > 0 && len(b)+len(c)+len(d) >= 0, "flag strings")
 	vReach("C03_pretty_helpers")
 }
+
+// ---- struct unmarshalling of decoded arbitrary messages ----
+
+type zzU1 struct {
+	VendorID  uint32 `avp:"N5"`
+	AuthAppID int64  `avp:"N6"`
+}
+
+// zzU0 has one field of every shape reflect.go distinguishes; the AVP names are abstract: the
+// dictionary's answer for each name (defined or not, code, vendor id, data type) is symbolic.
+type zzU0 struct {
+	Str     string               `avp:"N1"`
+	Num     uint32               `avp:"N2"`
+	Ptr     *AVP                 `avp:"N3"`
+	List    []*AVP               `avp:"N4"`
+	Group   zzU1                 `avp:"N7"`
+	GroupP  *zzU1                `avp:"N8"`
+	Nums    []uint32             `avp:"N2"`
+	Octets  datatype.OctetString `avp:"N1"`
+	Copy    AVP                  `avp:"N3"`
+	Ignored int
+}
+
+// zzC03_unmarshal: a message decoded from K symbolic AVP slots (as in C04), then Message.Unmarshal into
+// zzU0: whatever the bytes and whatever the dictionary says, it returns without panicking.
+func zzC03_unmarshal() {
+	k := vLen("k", 1, vParam("UK", 1))
+	sizes := make([]int, k)
+	total := 0
+	for i := range sizes {
+		sizes[i] = 4 * vLen("p4", 2, vParam("UP", 16)/4)
+		total += sizes[i]
+	}
+	body := vBytes("body", total)
+	app := vU32("app")
+	d := vAbstractDict()
+	zzFrameFixed(body, sizes)
+	zzKnownCommand(d, app, 257)
+	m, err := ReadMessage(zzNewReader(zzMessageBytes(body, 0x80, 257, app)), d)
+	vAssume(err == nil)
+	var dst zzU0
+	uerr := m.Unmarshal(&dst)
+	_ = uerr
+	vAssert(dst.Ignored == 0, "untagged field untouched")
+	vReach("C03_unmarshal")
+}
